@@ -183,7 +183,7 @@ Motl = cryomotl.Motl
 
 def get_motl_subset_ORIGINAL(self, feature_values, feature_id="tomo_id", return_df=False, reset_index=True):
     if isinstance(feature_values, (list, np.ndarray)):
-        feature_values = np.array(feature_values)
+        feature_values = np.atleast_1d(np.array(feature_values))  # a 0-d array is one value
     else:
         feature_values = np.array([feature_values])
 
